@@ -142,6 +142,11 @@ class Arm:
         for c in ev.gcells:
             key = canon.classify(c["root"], c["rows"], c["col"]) if c["root"] is not None else (None, None, None)
             rec = dict(c, key=key)
+            try:
+                # what a load of the cell gives before the iteration stores into it (a plain store `X[:, i] = X[:, i] + inc` is an increment too)
+                rec["content"] = ev.mkref(c["root"], c["rows"], c["col"]) if c["root"] is not None and c["col"] is not None else None
+            except Exception:  # noqa
+                rec["content"] = None
             (self.cells if c["in_loop"] else self.pre_cells).append(rec)
 
     def cell(self, arr, rn, cn="cur"):
@@ -1011,6 +1016,8 @@ def _inc(cell):
     if cell is None or not _good(cell["value"]):
         return None
     if cell["cur"] is None:
+        if _good(cell.get("content")):
+            return cell["value"] - cell["content"]
         return cell["value"] - F.sym("content of " + cell["text"])
     if not _good(cell["cur"]):
         return None
